@@ -42,12 +42,12 @@ def main(rep: Report, replay: dict | None, which=("A", "C", "B"), pair=False) ->
         else:
             iter_replay.replay_scenario(rep, sc)
         return
-    depth = 5 if rep.tier == "quick" else 7
+    depth = 5 if rep.tier == "quick" else 8
     for name in which:
         g = iter_replay.model_check(rep, name, depth if name != "C" else min(depth, 6))
         if g is not None:
             iter_replay.replay(rep, name, g, pair=pair and name == "B")
-    iter_traces.run(rep, n_traces=300 if rep.tier == "quick" else 4000, pair=pair)
+    iter_traces.run(rep, n_traces=300 if rep.tier == "quick" else 20000, pair=pair)
     if which == ("A", "C", "B"):  # C08 proper: also the renderable's own seek/tell/frame_count
         from .. import seek_replay
 
